@@ -211,3 +211,86 @@ def option_guard_worlds(body, du, max_keys=2):
                     removed.add((bid, t))
             worlds.append(('%s=%s' % (k, outcome), removed, {k: outcome}))
     return worlds, guards
+
+
+def helper_closure(P, allowed):
+    """`allowed` plus every crate function all of whose (resolved) callers are in the closure:
+    a private helper extracted from an allowed function inherits its permission. A function with
+    no resolved caller is never added (it may be called through a pointer or from outside)."""
+    callers = P.callers()
+    top = {}
+
+    def topname(n):
+        if n not in top:
+            i = n.find('::{closure')
+            top[n] = n[:i] if i >= 0 else n
+        return top[n]
+    out = set(allowed)
+    changed = True
+    while changed:
+        changed = False
+        for b in P.fn_bodies():
+            if b.name in out or '{closure' in b.name:
+                continue
+            cs = {topname(c) for (c, kind, _b) in callers.get(b.name, [])}
+            cs.discard(b.name)
+            if cs and cs <= out:
+                out.add(b.name)
+                changed = True
+    return out
+
+
+def inlined_anchor(P, body, pred):
+    """`body` with every crate helper that (transitively) performs a call satisfying pred(norm
+    callee) spliced in (see mirlib/inline.py); the body itself when there is nothing to inline."""
+    from mirlib import inline as _inl
+    want = _inl.reaches(P, pred)
+    nb = _inl.inline(P, body, want)
+    return nb if nb.inlined else body
+
+
+def topmost_reaching(P, pred, crate='locustdb'):
+    """Crate functions that reach a call satisfying pred through uniquely resolved crate callees
+    and are not themselves called (uniquely resolved) from another such function: the outermost
+    function of a protocol whose steps may have been split over helpers."""
+    from mirlib import inline as _inl
+    want = _inl.reaches(P, pred)
+    R = [b for b in P.fn_bodies() if b.crate == crate and b.kind == 'fn' and want(b)]
+    names = {b.name for b in R}
+    inner = set()
+    for b in R:
+        for blk, t in b.calls():
+            if blk.cleanup or not t.func:
+                continue
+            cs = P.resolve(t.func, b.crate)
+            if len(cs) == 1 and cs[0].name in names and cs[0].name != b.name:
+                inner.add(cs[0].name)
+    return [b for b in R if b.name not in inner]
+
+
+def protocol_anchor(P, required, inline_pred, crate='locustdb'):
+    """The function(s) that contain a whole protocol whose steps may have been split over helpers:
+    the *innermost* crate functions from which every call in `required` (list of predicates over
+    normalised callee names) is reachable (uniquely resolved callees + closures), with every helper
+    that reaches a call satisfying inline_pred spliced in."""
+    from mirlib import inline as _inl
+    wants = [_inl.reaches(P, r, crate=crate) for r in required]
+    Q = [b for b in P.fn_bodies() if b.crate == crate and b.kind == 'fn' and '{closure' not in b.name
+         and all(w(b) for w in wants)]
+    names = {b.name for b in Q}
+    g = _inl._helper_graph(P, True)
+    outer = set()
+    for b in Q:
+        seen = set()
+        work = list(g.get(b.name, ()))
+        while work:
+            x = work.pop()
+            if x in seen or x == b.name:
+                continue
+            seen.add(x)
+            if x in names:
+                outer.add(b.name)
+                break
+            work.extend(g.get(x, ()))
+    inner = [b for b in Q if b.name not in outer]
+    return [inlined_anchor(P, b, inline_pred) for b in inner]
